@@ -276,9 +276,27 @@ def _adds_edges(repo, fi, seen):
 def prov_matcher_args(repo, tier="quick"):
     """C03: the matcher receives the per-node graphs of the two ends of the base-graph edge being
     processed, and the resolver's matching convention."""
-    bs = BondSite(repo)
+    # every call of the matcher in the bond step hands the resolver's own convention on; this is asked of each call before the
+    # shared model of the bond site is built (which wants exactly one call): a second call with another convention - a retry with
+    # the labels ignored, say - is a verdict, not a reason to give up
+    fi0 = repo.function("resolve:MoleculeResolver.edges_from_bonding_descrpt")
+    early = []
+    for c0, n0, _t in fi0.flow.calls_to("resolve:match_bonding_descriptors"):
+        M0 = fi0.flow.canon(c0, n0)
+        kw0 = dict(M0[4])
+        lg = kw0.get("legacy", M0[3][3] if len(M0[3]) > 3 else None)
+        if lg is not None and lg != ("attr", SELF, "legacy"):
+            early.append(ob_fail("PROV.legacy-forwarded", fi0, c0, construct="match_bonding_descriptors(..., legacy=%s)" % show(lg), instance="call",
+                                 reason="the matcher is called with another matching convention than the one the resolver was built with: descriptors that are "
+                                        "incompatible under that convention are bonded"))
+    try:
+        bs = BondSite(repo)
+    except AnalysisError:
+        if early:
+            return early
+        raise
     fi, fl = bs.fi, bs.fl
-    obs = []
+    obs = list(early)
     uv = bs.coarse_endpoints()
     ok = False
     why = "the graphs matched are not self.meta_graph.nodes[u]['graph'] / [v]['graph']"
